@@ -258,3 +258,36 @@ def find_null(x, path=''):
             if r:
                 return r
     return None
+
+
+def apalache_inductive(module, inv='IndInv', init='Init', indinit='IndInit', goal=None, timeout=600):
+    """
+    Discharge an inductive invariant with Apalache (unbounded): Init => Inv, Inv /\\ Next => Inv', Inv => goal.
+    Returns a dict for the evidence; raises MachineryError if Apalache refutes an obligation.
+    """
+    exe = shutil.which('apalache-mc')
+    if not exe:
+        return {'module': module, 'skipped': 'apalache-mc not on PATH'}
+    out = workdir('apalache_' + module)
+    steps = [('base', ['--init=' + init, '--inv=' + inv, '--length=0']),
+             ('step', ['--init=' + indinit, '--inv=' + inv, '--length=1'])]
+    if goal:
+        steps.append(('goal', ['--init=' + indinit, '--inv=' + goal, '--length=0']))
+    t0 = time.time()
+    res = {'module': module, 'engine': 'Apalache (symbolic, unbounded inductive check)', 'obligations': []}
+    try:
+        for name, args in steps:
+            try:
+                p = subprocess.run([exe, 'check'] + args + ['--out-dir=' + out, module + '.tla'], cwd=SPEC, capture_output=True, text=True,
+                                   timeout=timeout)
+            except subprocess.TimeoutExpired:
+                res['obligations'].append({'name': name, 'result': 'timeout'})
+                continue
+            ok = 'EXITCODE: OK' in p.stdout
+            res['obligations'].append({'name': name, 'result': 'OK' if ok else 'FAILED'})
+            if not ok and 'EXITCODE: ERROR (12)' in p.stdout:
+                raise MachineryError(f'Apalache refutes obligation {name} of {module}:\n' + p.stdout[-1500:])
+    finally:
+        shutil.rmtree(out, ignore_errors=True)
+    res['wall_s'] = round(time.time() - t0, 1)
+    return res
